@@ -81,7 +81,7 @@ func doReplay(c *Ctx) int {
 		fmt.Fprintln(os.Stderr, err)
 		return 2
 	}
-	rp, ok := replayers[v.Section]
+	rp, ok := findReplayer(v.Section)
 	if !ok {
 		fmt.Printf("no replayer for section %q; recorded detail:\n%s\n", v.Section, v.Detail)
 		return 2
@@ -109,4 +109,33 @@ func workerMain(args []string) int {
 
 func init() {
 	checks["SELFTEST"] = func(c *Ctx) {}
+}
+
+var replayAliases = map[string]string{
+	"C02/indexed": "C02/programs", "C04/indexed": "C04/programs",
+	"C07/wellformed": "C07/arbitrary", "C07/library-outputs": "C07/arbitrary",
+	"C10/escape-model-ext": "C10/escape-model", "C11/formats-2byte": "C11/formats",
+	"C01/formats-2byte": "C01/programs", "C01/indexed": "C01/programs",
+	"C03/formats-2byte": "C03/programs", "C03/indexed": "C03/programs",
+}
+
+// findReplayer resolves a section name: exact, alias, or the longest registered prefix
+// (sections such as C09/state/level3 or C05/cells/cfg101/shapes share one replayer).
+func findReplayer(section string) (func(c *Ctx, raw json.RawMessage) string, bool) {
+	if a, ok := replayAliases[section]; ok {
+		section = a
+	}
+	if rp, ok := replayers[section]; ok {
+		return rp, true
+	}
+	best := ""
+	for k := range replayers {
+		if len(k) > len(best) && len(section) > len(k) && section[:len(k)] == k && section[len(k)] == '/' {
+			best = k
+		}
+	}
+	if best != "" {
+		return replayers[best], true
+	}
+	return nil, false
 }
